@@ -137,6 +137,10 @@ def check_property(prop, tier, seed, jobs=None, quiet=False):
     missing = [n for n in declared if n not in seen]
 
     cnt = lambda rs: sum(r.get("count", 1) for r in rs)
+    proof_inst = [r for r in instances if not r.get("bounded")]
+    proof_dis = [r for r in discharged if not r.get("bounded")]
+    bnd_inst = [r for r in instances if r.get("bounded")]
+    bnd_dis = [r for r in discharged if r.get("bounded")]
     if canaries and canaries_ref < canaries:
         faults.append("vacuity: %d of %d canaries were not refuted (contradictory requires)" %
                       (canaries - canaries_ref, canaries))
@@ -146,7 +150,7 @@ def check_property(prop, tier, seed, jobs=None, quiet=False):
         faults.append("declared obligations never instantiated: %s" % missing)
 
     # thorough: independent re-check of undischarged VCs in cvc5 (disagreement is a fault)
-    by_backend = {"z3-5.1": cnt(discharged)}
+    by_backend = {"z3-5.1": cnt(proof_dis), "z3-5.1 (bounded stand-ins, not counted as proved)": cnt(bnd_dis)}
     if tier == "thorough":
         n_cvc5 = 0
         for r in failed + unknown:
@@ -195,12 +199,16 @@ def check_property(prop, tier, seed, jobs=None, quiet=False):
         ex = next(r for r in instances if r["name"] == n)
         u = ex["_unit"]
         samples.append({"obligation": n, "text": u.obligations[n]["text"], "unit": u.name,
+                        "kind": "bounded" if all(r.get("bounded") for r in instances if r["name"] == n) else "proof",
                         "instances": sum(r.get("count", 1) for r in instances if r["name"] == n),
                         "example_case": ex.get("sample")})
     ev = {
         "property_id": prop, "tier": tier, "seed": seed, "level": "proof",
         "coverage": {
-            "obligations": cnt(instances), "discharged": cnt(discharged),
+            "obligations": cnt(proof_inst), "discharged": cnt(proof_dis),
+            "bounded_obligations": cnt(bnd_inst), "bounded_discharged": cnt(bnd_dis),
+            "named_proof_obligations": sorted({r["name"] for r in proof_inst}),
+            "named_bounded_obligations": sorted({r["name"] for r in bnd_inst}),
             "named_obligations": len(seen),
             "checker_cmd": "./check %s --tier %s" % (prop, tier),
             "trusted_base": trusted + ["CPython 3.12 (module import of /repo constants and tables)"],
@@ -241,8 +249,8 @@ def check_property(prop, tier, seed, jobs=None, quiet=False):
             print("UNDECIDED: solver returned unknown for %s (%s)" % (r["name"], r.get("reason")), file=sys.stderr)
         return EXIT_UNDECIDED
     if not quiet:
-        print("OK property=%s obligations=%d discharged=%d named=%d paths=%d wall=%.1fs" % (
-            prop, cnt(instances), cnt(discharged), len(seen), paths, time.time() - t0))
+        print("OK property=%s proof_obligations=%d discharged=%d bounded=%d/%d named=%d paths=%d wall=%.1fs" % (
+            prop, cnt(proof_inst), cnt(proof_dis), cnt(bnd_dis), cnt(bnd_inst), len(seen), paths, time.time() - t0))
     return EXIT_OK
 
 
